@@ -6,10 +6,11 @@ C02 — model intensity equals the helicity formula evaluated on the transitions
   `model.amplitudes`, `model.components` and `model.intensity` (compared with the REAL sympy
   objects on every run by `tools/props/C02.py`), and
 * `spec`: the helicity formula of the property statement (incoherent over per-state outer
-  projections, coherent over all symmetrised graphs with those projections).
+  projections, coherent over all symmetrised graphs with those projections, each node with D, CG and the assigned
+  lineshape).
 
 The theorems hold for EVERY interpretation `ι` of the Wigner D-functions, the Clebsch–Gordan
-coefficients, the parameters and `|·|²` in ANY commutative ring — no special-function theory is
+coefficients, the lineshape builders, the parameters and `|·|²` in ANY commutative ring — no special-function theory is
 needed, and they hold in particular for the true functions at every numerical point.
 Only property theorems (and non-vacuity examples) live here.
 -/
@@ -34,10 +35,20 @@ theorem C02_intensity (ι : Interp R) (v : Variant) (cfg : Config) (ts : List Tr
 
 /-- **C02 (terms).** The term the builder writes for an isobar graph is the term of the formula:
 `conj D^J_{m, λ₁−λ₂}(φ, θ of the first child)`, first child = the one whose final-state ids come
-first, and in the canonical basis `⟨L 0; S δ | J δ⟩ ⟨s₁ λ₁; s₂ −λ₂ | S δ⟩`. -/
-theorem C02_term (v : Variant) (cfg : Config) (m : Mapping) (g : Transition) (h : g.isobar = true) :
-    g.term v cfg m = g.specTerm v cfg m :=
-  term_eq_specTerm v cfg m g h
+first, in the canonical basis `⟨L 0; S δ | J δ⟩ ⟨s₁ λ₁; s₂ −λ₂ | S δ⟩`, times the lineshape assigned to the
+decaying particle (whenever the node is a key of the dynamics selector). -/
+theorem C02_term (v : Variant) (cfg : Config) (m : Mapping) (sel : List DecayKey) (g : Transition)
+    (h : g.isobar = true) (hk : ∀ n ∈ g.nodes, g.decayKey n ∈ sel) :
+    g.term v cfg m sel = g.specTerm v cfg m :=
+  term_eq_specTerm v cfg m sel g h hk
+
+/-- **C02 (lineshape attachment).** Every node of every symmetrised graph of every transition of the
+reaction is a key of the dynamics selector (e918528), so `C02_term` applies to every graph the
+builder formulates: its lineshape factor is the builder assigned to the decaying particle, applied
+to that particle and to (m_parent, m_child1, m_child2, L, φ, θ) of that node. -/
+theorem C02_selector_covers (ts : List Transition) (t : Transition) (ht : t ∈ ts) (g : Transition)
+    (hg : g ∈ t.symmetrise) (n : Nat) (hn : n ∈ g.nodes) : g.decayKey n ∈ selectorKeys ts :=
+  mem_selectorKeys ts t ht g hg n hn
 
 /-- **C02 (components, amplitudes).** Every `A_{…}` component is the term of one symmetrised graph
 of one transition, named after that graph. -/
@@ -54,15 +65,17 @@ theorem C02_components_A (v : Variant) (own : Bool) (cfg : Config) (ts : List Tr
   have htr' : tr ∈ ts := cf.1 tr htr
   refine ⟨tr, htr', gr, hgr, ?_, ?_⟩
   · exact (congrArg Prod.fst e).symm
-  · rw [← term_eq_specTerm v cfg _ gr (wf.isobar tr htr' gr hgr)]
+  · rw [← term_eq_specTerm v cfg _ (selectorKeys ts) gr (wf.isobar tr htr' gr hgr)
+      (fun n hn => mem_selectorKeys ts tr htr' gr hgr n hn)]
     exact (congrArg Prod.snd e).symm
 
 /-- **C02 (components, intensities).** The `I_{…}` component of a spin group denotes the partial
 sum of the formula over the group's graphs: incoherent over their distinct outer projection
 tuples, coherent within each. -/
-theorem C02_components_I (ι : Interp R) (v : Variant) (cfg : Config) (m : Mapping)
-    (gs : List Transition) (hiso : ∀ g ∈ gs, g.isobar = true) :
-    denIncoherent ι ((byProjection v cfg m gs).map (·.2))
+theorem C02_components_I (ι : Interp R) (v : Variant) (cfg : Config) (m : Mapping) (sel : List DecayKey)
+    (gs : List Transition) (hiso : ∀ g ∈ gs, g.isobar = true)
+    (hk : ∀ g ∈ gs, ∀ n ∈ g.nodes, g.decayKey n ∈ sel) :
+    denIncoherent ι ((byProjection v cfg m sel gs).map (·.2))
       = ((dedupFirst (gs.map Transition.outer)).map fun h =>
           ι.nsq (denTerms ι ((gs.filter fun g => g.outer = h).map (Transition.specTerm v cfg m)))).sum := by
   unfold denIncoherent byProjection
@@ -73,13 +86,14 @@ theorem C02_components_I (ι : Interp R) (v : Variant) (cfg : Config) (m : Mappi
   congr 2
   apply List.map_congr_left
   intro g hg
-  exact term_eq_specTerm v cfg m g (hiso g (List.mem_filter.mp hg).1)
+  exact term_eq_specTerm v cfg m sel g (hiso g (List.mem_filter.mp hg).1) (hk g (List.mem_filter.mp hg).1)
 
 /-- the `I_{…}` entry of the skeleton is exactly that list of coherent sums (repaired builder). -/
 theorem C02_components_I_entry (v : Variant) (cfg : Config) (ts : List Transition) :
     (impl v true cfg ts).compI = (cellsOf ts).map fun g =>
       ("I_{" ++ ((g.headD []).headD default).label ++ "}",
-        (byProjection v cfg (registerAll cfg.flags (ts.map Transition.chain)) (g.flatMap graphsOf)).map (·.2)) :=
+        (byProjection v cfg (registerAll cfg.flags (ts.map Transition.chain)) (selectorKeys ts)
+          (g.flatMap graphsOf)).map (·.2)) :=
   rfl
 
 /-- **C02 (symmetrised).** The graphs summed for a transition are exactly its relabelings by
@@ -92,10 +106,10 @@ theorem C02_symmetrised (t : Transition) :
 
 /-- the terms written for one (spin group, topology) cell add up to the terms of all symmetrised
 graphs of the cell's transitions, for every interpretation (nothing dropped, nothing doubled). -/
-theorem C02_cell_total (ι : Interp R) (v : Variant) (cfg : Config) (m : Mapping) (c : List Transition)
-    (h : List Int) :
-    ((cellWrites v true cfg m c).map fun w => if w.idx = h then denTerms ι w.terms else 0).sum
-      = denTerms ι (((graphsOf c).filter fun g => g.outer = h).map (Transition.term v cfg m)) := by
+theorem C02_cell_total (ι : Interp R) (v : Variant) (cfg : Config) (m : Mapping) (sel : List DecayKey)
+    (c : List Transition) (h : List Int) :
+    ((cellWrites v true cfg m sel c).map fun w => if w.idx = h then denTerms ι w.terms else 0).sum
+      = denTerms ι (((graphsOf c).filter fun g => g.outer = h).map (Transition.term v cfg m sel)) := by
   rw [sum_cellWrites, denTerms_graphs_filter]
 
 /-! ### witness for the builder up to 043d8fb (`own = false`) -/
@@ -113,7 +127,7 @@ def tr (a b : Int) : Transition :=
                (0, photon a), (1, photon b), (2, ⟨"J/psi(1S)", "J/\\psi(1S)", 2, 0⟩)]
     inters := [(0, ⟨none, none⟩), (1, ⟨none, none⟩)] }
 
-def cfg : Config := ⟨false, false, ⟨false, true, false⟩⟩
+def cfg : Config := ⟨false, false, ⟨false, true, false⟩, [("chi(c1)(1P)", "bw")]⟩
 def ts : List Transition := [tr (-2) 2, tr 2 (-2)]
 
 end Witness
